@@ -24,8 +24,7 @@ def extract(ck):
             raise X.ExtractError("the refusal guard is not `if N == M: raise`: %s" % (se.guards,))
         nm, mm = X.lean_expr(se.env["dNM"], False), X.lean_expr(se.env["dMM"], False)
     except X.ExtractError as e:
-        ck.tie_fail("extraction of RateMatrix.set_rate failed: %s" % e)
-        return False
+        return bool(ck.tie_fallback("C17", "extraction of RateMatrix.set_rate failed: %s" % e, default=False))
     ck.gen("C17", "namespace QV.Gen.C17\n"
            "set_option linter.unusedVariables false\n"
            "/-- new value of `data[N,M]` after `set_rate((N,M), value)` (N ≠ M) -/\n"
@@ -122,6 +121,17 @@ def run(ck):
             p0[0] = 1.0
         dt = rng.choice([0.25, 0.5, 1.0, 2.0])
         nt = rng.randint(2, 12)
+        if h % 5 == 4:
+            # boundary: a coarse (inadmissible but stable) step on a downhill chain, where the order-4 polynomial produces
+            # genuinely negative components - sum conservation and the series must hold there as well
+            N = rng.randint(3, 4)
+            K = numpy.zeros((N, N))
+            for j in range(N - 1):
+                K[j + 1, j] = rng.choice([0.5, 0.4375, 0.5625])
+                K[j, j] = -K[j + 1, j]
+            dt = rng.choice([3.5, 4.25, 4.75, 5.0])
+            p0 = numpy.zeros(N); p0[0] = 1.0
+            nt = rng.randint(3, 6)
         ta = TimeAxis(0.0, nt, dt)
         rmK = RateMatrix(data=K.copy()) if rng.random() < 0.5 else K.copy()
         prop = PopulationPropagator(ta, rmK)
@@ -130,6 +140,7 @@ def run(ck):
         emit("prop %s 4 1 %d %s" % (frac(dt), nt, " ".join(frac(x) for x in p0)),
              " | ".join(" ".join(frac(x) for x in row) for row in pops), 1e-9 * max(1.0, float(numpy.abs(pops).max())))
         ck.case(("prop", N, K.tobytes(), p0.tobytes(), dt, nt), nontrivial=N >= 3, kind="propagate", size=N,
+                coarse_step=bool(dt * numpy.abs(numpy.diag(K)).max() > 1.0), negative_component=bool(pops.min() < -1e-9),
                 sample={"K": K.tolist(), "p0": p0.tolist(), "dt": dt, "nt": nt} if h < 1 else None)
         # oracle: conservation, sign, distance to exp within the truncation bound
         s0 = p0.sum()
